@@ -457,19 +457,91 @@ def subprocess_rm(path):
     shutil.rmtree(path, ignore_errors=True)
 
 
-def run_op(binp, d, pr, reps, real_reps, render_):
-    mod = "example.test/" + pr["name"]
-    paths = sorted({mod + "/" + s["path"] for f in pr["files"] for s in pr["specs"][f]})
-    rq = {"op": "primary", "raw": {"dir": d, "files": pr["files"], "reps": reps, "real_reps": real_reps, "paths": paths, "render": render_}}
-    rc, out, err = sh([binp], input=(json.dumps(rq) + "\n").encode(), env=goenv(), timeout=1500)
-    if rc != 0 or not out.strip():
+def run_ops(binp, reqs):
+    """reqs: [(dir, project, reps, real_reps, render)]: ONE unitrun process handles them one after the other"""
+    lines = []
+    for d, pr, reps, real_reps, render_ in reqs:
+        mod = "example.test/" + pr["name"]
+        paths = sorted({mod + "/" + s["path"] for f in pr["files"] for s in pr["specs"][f]})
+        lines.append(json.dumps({"op": "primary", "raw": {"dir": d, "files": pr["files"], "reps": reps, "real_reps": real_reps, "paths": paths, "render": render_}}))
+    rc, out, err = sh([binp], input=("\n".join(lines) + "\n").encode(), env=goenv(), timeout=3000)
+    outs = [l for l in out.splitlines() if l.strip()]
+    if rc != 0 or len(outs) != len(reqs):
         raise BuildError("unitrun op primary failed: rc=%d %s" % (rc, err[-1500:]))
-    a = json.loads(out.splitlines()[0])
-    if "error" in a:
-        raise BuildError("unitrun op primary: " + a["error"])
-    return a
+    res = [json.loads(l) for l in outs]
+    for a in res:
+        if "error" in a:
+            raise BuildError("unitrun op primary: " + a["error"])
+    return res
 
 
+def run_op(binp, d, pr, reps, real_reps, render_):
+    return run_ops(binp, [(d, pr, reps, real_reps, render_)])[0]
+
+
+# ---------------------------------------------------------------- the compiled output (file-system orderings)
+GOWRAP = """#!/bin/sh
+# stand-in for the go tool (mage -gocmd): records the argument list of `go build`, then runs the real go
+if [ "$1" = build ] && [ -n "$VERIF_C18_ARGV" ]; then
+  { echo "--"; printf '%s\\n' "$@"; } >> "$VERIF_C18_ARGV"
+fi
+exec go "$@"
+"""
+LAYOUTS = ["plain", "magefiles", "dash-d"]
+
+
+def gen_compile_project(rng, idx):
+    n = rng.choice([3, 4, 5, 7])
+    files = rng.sample(FILE_POOL, n)
+    return {"name": "c%03d" % idx, "files": files, "tagged": [rng.random() < 0.5 for _ in files], "ldflags": rng.choice(["", "", "-s"])}
+
+
+def compile_files(cp, layout):
+    """{relative path: text} in creation order; the magefile directory relative to the project"""
+    sub = "magefiles/" if layout == "magefiles" else ""
+    out = {"go.mod": projlib.GO_MOD % (cp["name"], REPO)}
+    for k, f in enumerate(cp["files"]):
+        tag = "//go:build mage\n// +build mage\n\n" if (layout != "magefiles" or cp["tagged"][k]) else ""
+        out[sub + f] = (tag + "package main\n\nimport \"fmt\"\n\nfunc init() { fmt.Println(\"INIT %s\") }\n\n// T%d is a target.\nfunc T%d() {}\n" % (f, k, k))
+    return out
+
+
+def run_compile(ctx, mage, wrap, cp, layout, order, base):
+    files = compile_files(cp, layout)
+    names = list(files)
+    if order == "reverse":
+        names = names[::-1]
+    d = os.path.join(base, "%s_%s_%s" % (cp["name"], layout, order), "proj")
+    for rel in names:
+        q = os.path.join(d, rel)
+        os.makedirs(os.path.dirname(q), exist_ok=True)
+        with open(q, "w") as f:
+            f.write(files[rel])
+    mdir = os.path.join(d, "magefiles") if layout == "magefiles" else d
+    entries = os.listdir(mdir)                     # raw directory order
+    outp = os.path.join(os.path.dirname(d), "out.bin")
+    argvf = os.path.join(os.path.dirname(d), "argv.txt")
+    args = ["-gocmd", wrap]
+    if cp["ldflags"]:
+        args += ["-ldflags", cp["ldflags"]]
+    cwd = d
+    if layout == "dash-d":
+        args = ["-d", d] + args
+        cwd = os.path.dirname(d)
+    r = mage.run(cwd, args + ["-compile", outp], env={"GOFLAGS": "-mod=mod -trimpath", "VERIF_C18_ARGV": argvf},
+                 cache=os.path.join(os.path.dirname(d), "cache"), timeout=600)
+    res = {"layout": layout, "order": order, "base": base, "rc": r["rc"], "err": r["err"][-400:], "entries": entries, "argv": None, "sha1": None, "init": None}
+    if r["rc"] == 0 and os.path.exists(outp):
+        blocks = open(argvf).read().split("--\n") if os.path.exists(argvf) else []
+        if blocks:
+            res["argv"] = ["OUT" if a == outp else a for a in blocks[-1].splitlines()]
+        res["sha1"] = hashlib.sha1(open(outp, "rb").read()).hexdigest()
+        rr = mage.run(cwd, ["-l"], exe=outp, timeout=60)
+        res["init"] = [l[5:] for l in rr["out"].splitlines() if l.startswith("INIT ")]
+    return res
+
+
+def run(ctx):
 def run(ctx):
     ctx.prove(["Props/C18.vo", "Run/eval_C18.vo"], extra_props=["Compose_C18_imports"])   # + the three transcriptions of setImports (Gen, Dupes, ImportTag) agree
     import extractlib; extractlib.fn_tie(ctx, ['TargetName/Gen', 'Functions.Less', 'Imports.Less'])   # pure functions translated from the current source, re-proved equal to the models' (tools/notes/Translator.md)
@@ -483,19 +555,25 @@ def run(ctx):
     binp = go_build_harness(ctx, "unitrun")
     quick = ctx.quick
     nproj = 8 if quick else 40
-    runs_a, runs_b = (12, 4) if quick else (64, 16)
-    reps, nprocs = (30, 4) if quick else (500, 4)
-    nhist = 3 if quick else 16
-    projects = []
+    ncompile = 1 if quick else 4
+    runs_a, runs_b = (12, 4) if quick else (48, 16)
+    reps, nprocs = (30, 4) if quick else (125, 4)      # beyond a few hundred repetitions nothing is gained: (7/8)^500 < 1e-28
+    nhist = 3 if quick else 8
+    projects, compile_projects = [], []
     if ctx.replay and ctx.replay.get("case"):
         c = ctx.replay["case"]
-        projects = [c["project"]]
+        projects = [c["project"]] if c.get("project") else []
+        compile_projects = [c["compile_project"]] if c.get("compile_project") else []
         runs_a, runs_b, reps, nprocs = c.get("runs_a", runs_a), c.get("runs_b", runs_b), c.get("reps", reps), c.get("nprocs", nprocs)
     else:
         for i in range(nproj):
             projects.append(gen_project(rng, i))
-        for pr in projects[:nhist]:
-            pr["history"] = gen_history(rng, pr)
+        for k, pr in enumerate(projects):
+            h = gen_history(rng, pr)
+            pr["variant"] = {"path": h["path"], "pkg": h["states"][1][1]}        # the same module with one imported package changed
+            if k < nhist:
+                pr["history"] = h
+        compile_projects = [gen_compile_project(rng, i) for i in range(ncompile)]
         projects.append(error_project(rng, nproj))
 
     # create the projects
@@ -508,6 +586,9 @@ def run(ctx):
         dc = mage.project(render(pr), name=pr["name"] + "_ops", probe=False)
         dd = mage.project(render(pr, "reverse"), name=pr["name"] + "_ops2", probe=False)
         dirs[pr["name"]] = (da, db, dc, dd)
+        if pr.get("variant"):
+            prv = dict(pr, pkgs=dict(pr["pkgs"], **{pr["variant"]["path"]: pr["variant"]["pkg"]}))
+            dirs[pr["name"] + "/var"] = mage.project(render(prv), name=pr["name"] + "_var", probe=False)
         if pr.get("history"):
             dirs[pr["name"] + "/hist"] = mage.project(render(pr), name=pr["name"] + "_hist", probe=False)
 
@@ -520,10 +601,31 @@ def run(ctx):
             tasks.append((pi, "B", lambda db=db: fresh_runs(mage, db, runs_b, os.path.join(ctx.tmp, "cache_b"))))
         if pr.get("history") and not pr.get("error"):
             tasks.append((pi, "H", lambda pr=pr: run_history(ctx, mage, binp, dirs[pr["name"] + "/hist"], pr)))
+        if pr.get("variant") and not pr.get("error"):
+            dv = dirs[pr["name"] + "/var"]
+            # two different projects (same module path, same import paths, one imported package differs) in ONE process
+            tasks.append((pi, "X", lambda dc=dc, dv=dv, pr=pr: (run_ops(binp, [(dc, pr, 2, 1, False), (dv, pr, 2, 1, False), (dc, pr, 2, 1, False)]),
+                                                                 run_op(binp, dv, pr, 2, 1, False))))
         for k in range(nprocs):
             d = dc if k % 2 == 0 else dd
             tasks.append((pi, "op%d" % k, lambda d=d, pr=pr, k=k: run_op(binp, d, pr, reps, 2 if k == 0 else 0, k < 2)))
-    tasks.sort(key=lambda t: t[1] != "H")          # the histories are the longest tasks: start them first
+    wrap = os.path.join(ctx.tmp, "gowrap.sh")
+    with open(wrap, "w") as f:
+        f.write(GOWRAP)
+    os.chmod(wrap, 0o755)
+    bases = [os.path.join(ctx.tmp, "compile")]
+    shm = None
+    if os.path.isdir("/dev/shm") and os.access("/dev/shm", os.W_OK):
+        import tempfile, atexit
+        shm = tempfile.mkdtemp(prefix="verif-C18-", dir="/dev/shm")
+        atexit.register(subprocess_rm, shm)
+        bases.append(shm)
+    for ci, cp in enumerate(compile_projects):
+        for layout in LAYOUTS:
+            for order in ("listed", "reverse"):
+                for base in bases:
+                    tasks.append((("c", ci), "C", lambda cp=cp, layout=layout, order=order, base=base: run_compile(ctx, mage, wrap, cp, layout, order, base)))
+    tasks.sort(key=lambda t: t[1] not in ("H", "C"))          # the histories are the longest tasks: start them first
     ctx.log("projects created; %d tasks" % len(tasks))
     import time as _t
     def timed(t):
